@@ -10,6 +10,7 @@ CONSTANTS
   CorruptInit = FALSE
   StaleFix = TRUE
   WithCrash = FALSE
+  CreateMayFail = TRUE
   WithBackend = FALSE
 INVARIANTS InvAccounting InvLogical InvWithinMax InvReserved InvQuiescentResv InvNoHang InvMapList InvDirEqualsIndex InvIndexedHasFile InvBacklog InvLruOrder InvWholeValue
 PROPERTIES EvictsOnlyUnderPressure
